@@ -1007,3 +1007,30 @@ package ice
 //@   at call:(*chunkedDocumentCoder).flush#0 lemma[C04] result0 == nil ==> len(c.offsets) >= 1
 //@   at call:encoding/binary.Write#0 lemma[C04] len(c.offsets) >= 1
 //@   at call:encoding/binary.Write#0 lemma[C04] wn >= len(c.offsets)
+//@
+//@ // ---------------------------------------------------------------------------
+//@ // C14: the recycled builder. reset() returns the builder to the state of a new one as far
+//@ // as anything a later build can read is concerned: every logical field empty, and every slot
+//@ // of the retained capacity that the next build re-slices into view is blank.
+//@ func (*interim).reset
+//@   requires[C14] s != nil
+//@   loop 0 invariant[C14] forall(j, 0, rangeindex + 1, s.Dicts[j] == nil) && len(s.Dicts) == old(len(s.Dicts)) && arr(s.Dicts) == old(arr(s.Dicts)) && off(s.Dicts) == old(off(s.Dicts))
+//@   loop 1 invariant[C14] forall(j, 0, rangeindex + 1, len(s.DictKeys[j]) == 0) && len(s.DictKeys) == old(len(s.DictKeys)) && arr(s.DictKeys) == old(arr(s.DictKeys)) && off(s.DictKeys) == old(off(s.DictKeys))
+//@   loop 2 invariant[C14] forall(j, 0, rangeindex + 1, s.IncludeDocValues[j] == false) && len(s.IncludeDocValues) == old(len(s.IncludeDocValues)) && arr(s.IncludeDocValues) == old(arr(s.IncludeDocValues)) && off(s.IncludeDocValues) == old(off(s.IncludeDocValues))
+//@   loop 3 invariant[C14] forall(j, 0, rangeindex + 1, bset(s.Postings[j]) == emptyset()) && len(s.Postings) == old(len(s.Postings)) && arr(s.Postings) == old(arr(s.Postings)) && off(s.Postings) == old(off(s.Postings))
+//@   ensures[C14] @logical_state_empty len(s.results) == 0 && s.chunkMode == 0 && s.w == nil && s.FieldsMap == nil && len(s.FieldsInv) == 0
+//@   ensures[C14] @logical_state_empty len(s.Dicts) == 0 && len(s.DictKeys) == 0 && len(s.IncludeDocValues) == 0 && len(s.Postings) == 0 && len(s.FreqNorms) == 0 && len(s.freqNormsBacking) == 0
+//@   ensures[C14] @logical_state_empty len(s.Locs) == 0 && len(s.locsBacking) == 0 && len(s.numTermsPerPostingsList) == 0 && len(s.numLocsPerPostingsList) == 0 && len(s.tmp0) == 0 && len(s.tmp1) == 0
+//@   ensures[C14] @logical_state_empty outlen(s.builderBuf) == 0 && outlen(s.metaBuf) == 0 && s.lastNumDocs == 0 && s.lastOutSize == 0
+//@   ensures[C14] @retained_slots_blank forall(j, 0, old(len(s.Dicts)), s.Dicts[j] == nil)
+//@   ensures[C14] @retained_slots_blank forall(j, 0, old(len(s.DictKeys)), len(s.DictKeys[j]) == 0)
+//@   ensures[C14] @retained_slots_blank forall(j, 0, old(len(s.IncludeDocValues)), s.IncludeDocValues[j] == false)
+//@   ensures[C14] @retained_slots_blank forall(j, 0, old(len(s.Postings)), bset(s.Postings[j]) == emptyset())
+//@ // only a builder that reset() has just emptied goes back into the pool
+//@ func newWithChunkMode
+//@   at call:(*sync.Pool).Put#0 lemma[C14] len(s.results) == 0 && s.chunkMode == 0 && s.w == nil && s.FieldsMap == nil && len(s.FieldsInv) == 0
+//@   at call:(*sync.Pool).Put#0 lemma[C14] len(s.Dicts) == 0 && len(s.DictKeys) == 0 && len(s.IncludeDocValues) == 0 && len(s.Postings) == 0 && len(s.FreqNorms) == 0 && len(s.freqNormsBacking) == 0
+//@   at call:(*sync.Pool).Put#0 lemma[C14] len(s.Locs) == 0 && len(s.locsBacking) == 0 && len(s.numTermsPerPostingsList) == 0 && len(s.numLocsPerPostingsList) == 0 && len(s.tmp0) == 0 && len(s.tmp1) == 0
+//@   at call:(*sync.Pool).Put#0 lemma[C14] outlen(s.builderBuf) == 0 && outlen(s.metaBuf) == 0
+//@ // builds share nothing but the pool and the lazily created zstd coders (sync.Once)
+//@ confined[C14] newWithChunkMode encoder decoder
